@@ -61,6 +61,7 @@ class Prop(BaseProp):
         route = r.choice(("fake", "fake", "invert", "generator"))
         case = {"spec": spec, "witness": enc(w), "route": route,
                 "max_repeat": r.choice((32, 1, 8, 64)),
+                "letters": r.choice((None, None, None, "abcdefghijklmnopqrstuvwxyz", "ab01_ -")) if not S.hash_seed_sensitive(spec) else None,
                 "seed": derive(*labels, "sched"), "m": cfg["m_seeded"], "flip_n": cfg["flip_n"],
                 "clock_seed": derive(*labels, "clock")}
         return case
@@ -72,7 +73,9 @@ class Prop(BaseProp):
         if route == "invert":
             return ~sch
         rnd = self.Random()
-        gen = self.Generator(rnd, self.RegexGenerator(rnd, max_repeat=case["max_repeat"]))
+        letters = case.get("letters")
+        rg = self.RegexGenerator(rnd, max_repeat=case["max_repeat"], alphabet={"letters": letters} if letters else None)
+        gen = self.Generator(rnd, rg)
         return sch.__accept__(gen)
 
     # ------------------------------------------------------------ one execution
